@@ -84,8 +84,14 @@ func VerifC15_ReaderConstruction() {
 // L((M*x + B*10^K1) * 10^K2) evaluated in IEEE double in the specification's association,
 // and the unavailable / scanning-disabled errors exactly when the BMC sets those flags.
 func VerifC15_Read() {
-	lin := vChoice(12)
-	format := vChoice(3)
+	lin := vParam("lin", -1)
+	if lin < 0 {
+		lin = vChoice(12)
+	}
+	format := vParam("format", -1)
+	if format < 0 {
+		format = vChoice(3)
+	}
 	var k1, k2 int
 	if vParam("allexp", 0) == 1 {
 		k1, k2 = vChoice(16)-8, vChoice(16)-8
